@@ -796,37 +796,44 @@ THEOREM EncRefines == \A d \in U64 : Enc(d) = NEnc(Val(d)) /\ LenOf(d) = NLenOf(
   <2> QED BY <2>1, ModSmall, SMTT(30)
 <1> HIDE DEF v
 <1>L. LenOf(d) = NLenOf(v) BY <1>0, SMTT(30) DEF LenOf, NLenOf
-<1>1. CASE Leq(d, 240)
-  <2>1. Enc(d) = << Low(d) >> BY <1>1, SMTT(30) DEF Enc
-  <2>2. NEnc(v) = << v >> BY <1>0, <1>1, Enc1, SMTT(30)
-  <2> QED BY <2>1, <2>2, <1>0, <1>0a, <1>1, SMTT(30)
-<1>2. CASE ~Leq(d, 240) /\ Leq(d, 2287)
-  <2>1. Enc(d) = << (((Low(d) - 240) \div 256) + 241) % 256, (Low(d) - 240) % 256 >> BY <1>2, SMTT(30) DEF Enc
-  <2>2. NEnc(v) = << (((v - 240) \div 256) + 241) % 256, (v - 240) % 256 >> BY <1>0, <1>2, Enc2, SMTT(30)
-  <2> QED BY <2>1, <2>2, <1>0, <1>0a, <1>2, SMTT(30)
-<1>3. CASE ~Leq(d, 240) /\ ~Leq(d, 2287) /\ Leq(d, 67823)
-  <2>1. Enc(d) = << 249, ((Low(d) - 2288) \div 256) % 256, (Low(d) - 2288) % 256 >> BY <1>3, SMTT(30) DEF Enc
-  <2>2. NEnc(v) = << 249, ((v - 2288) \div 256) % 256, (v - 2288) % 256 >> BY <1>0, <1>3, Enc3, SMTT(30)
-  <2> QED BY <2>1, <2>2, <1>0, <1>0a, <1>3, SMTT(30)
-<1>4. CASE ~Leq(d, 240) /\ ~Leq(d, 2287) /\ ~Leq(d, 67823) /\ Small(d)
-  <2>1. Enc(d) = << 250, (Low(d) \div 65536) % 256, (Low(d) \div 256) % 256, Low(d) % 256 >> BY <1>4, SMTT(30) DEF Enc
-  <2>2. NEnc(v) = << 250, (v \div 65536) % 256, (v \div 256) % 256, v % 256 >> BY <1>0, <1>4, Enc4, SMTT(30)
-  <2> QED BY <2>1, <2>2, <1>0, <1>4, SMTT(30)
-<1>5. CASE ~Leq(d, 240) /\ ~Leq(d, 2287) /\ ~Leq(d, 67823) /\ ~Small(d) /\ Fits32(d)
-  <2>1. Enc(d) = << 251, (d[3] \div 256) % 256, d[3] % 256, (d[4] \div 256) % 256, d[4] % 256 >> BY <1>5, SMTT(30) DEF Enc
+<1>1. (Leq(d, 240)) => Enc(d) = NEnc(v)
+  <2> HAVE Leq(d, 240)
+  <2>1. Enc(d) = << Low(d) >> BY SMTT(30) DEF Enc
+  <2>2. NEnc(v) = << v >> BY <1>0, Enc1, SMTT(30)
+  <2> QED BY <2>1, <2>2, <1>0, <1>0a, SMTT(30)
+<1>2. (~Leq(d, 240) /\ Leq(d, 2287)) => Enc(d) = NEnc(v)
+  <2> HAVE ~Leq(d, 240) /\ Leq(d, 2287)
+  <2>1. Enc(d) = << (((Low(d) - 240) \div 256) + 241) % 256, (Low(d) - 240) % 256 >> BY SMTT(30) DEF Enc
+  <2>2. NEnc(v) = << (((v - 240) \div 256) + 241) % 256, (v - 240) % 256 >> BY <1>0, Enc2, SMTT(30)
+  <2> QED BY <2>1, <2>2, <1>0, <1>0a, SMTT(30)
+<1>3. (~Leq(d, 240) /\ ~Leq(d, 2287) /\ Leq(d, 67823)) => Enc(d) = NEnc(v)
+  <2> HAVE ~Leq(d, 240) /\ ~Leq(d, 2287) /\ Leq(d, 67823)
+  <2>1. Enc(d) = << 249, ((Low(d) - 2288) \div 256) % 256, (Low(d) - 2288) % 256 >> BY SMTT(30) DEF Enc
+  <2>2. NEnc(v) = << 249, ((v - 2288) \div 256) % 256, (v - 2288) % 256 >> BY <1>0, Enc3, SMTT(30)
+  <2> QED BY <2>1, <2>2, <1>0, <1>0a, SMTT(30)
+<1>4. (~Leq(d, 240) /\ ~Leq(d, 2287) /\ ~Leq(d, 67823) /\ Small(d)) => Enc(d) = NEnc(v)
+  <2> HAVE ~Leq(d, 240) /\ ~Leq(d, 2287) /\ ~Leq(d, 67823) /\ Small(d)
+  <2>1. Enc(d) = << 250, (Low(d) \div 65536) % 256, (Low(d) \div 256) % 256, Low(d) % 256 >> BY SMTT(30) DEF Enc
+  <2>2. NEnc(v) = << 250, (v \div 65536) % 256, (v \div 256) % 256, v % 256 >> BY <1>0, Enc4, SMTT(30)
+  <2> QED BY <2>1, <2>2, <1>0, SMTT(30)
+<1>5. (~Leq(d, 240) /\ ~Leq(d, 2287) /\ ~Leq(d, 67823) /\ ~Small(d) /\ Fits32(d)) => Enc(d) = NEnc(v)
+  <2> HAVE ~Leq(d, 240) /\ ~Leq(d, 2287) /\ ~Leq(d, 67823) /\ ~Small(d) /\ Fits32(d)
+  <2>1. Enc(d) = << 251, (d[3] \div 256) % 256, d[3] % 256, (d[4] \div 256) % 256, d[4] % 256 >> BY SMTT(30) DEF Enc
   <2>2. NEnc(v) = << 251, (v \div 16777216) % 256, (v \div 65536) % 256, (v \div 256) % 256, v % 256 >>
-    BY <1>0, <1>5, Enc5, SMTT(30)
+    BY <1>0, Enc5, SMTT(30)
   <2> QED BY <2>1, <2>2, <1>b, <1>c, SMTT(30)
-<1>6. CASE ~Leq(d, 240) /\ ~Leq(d, 2287) /\ ~Leq(d, 67823) /\ ~Small(d) /\ ~Fits32(d)
+<1>6. (~Leq(d, 240) /\ ~Leq(d, 2287) /\ ~Leq(d, 67823) /\ ~Small(d) /\ ~Fits32(d)) => Enc(d) = NEnc(v)
+  <2> HAVE ~Leq(d, 240) /\ ~Leq(d, 2287) /\ ~Leq(d, 67823) /\ ~Small(d) /\ ~Fits32(d)
   <2>1. Enc(d) = << 255, d[1] \div 256, d[1] % 256, d[2] \div 256, d[2] % 256,
-                         d[3] \div 256, d[3] % 256, d[4] \div 256, d[4] % 256 >> BY <1>6, SMTT(30) DEF Enc
+                         d[3] \div 256, d[3] % 256, d[4] \div 256, d[4] % 256 >> BY SMTT(30) DEF Enc
   <2>2. NEnc(v) = << 255, (v \div 72057594037927936) % 256, (v \div 281474976710656) % 256,
                           (v \div 1099511627776) % 256,     (v \div 4294967296) % 256,
                           (v \div 16777216) % 256,          (v \div 65536) % 256,
                           (v \div 256) % 256,               v % 256 >>
-    BY <1>0, <1>6, Enc9, SMTT(30)
+    BY <1>0, Enc9, SMTT(30)
   <2> QED BY <2>1, <2>2, <1>b, SMTT(30)
-<1> QED BY <1>L, <1>1, <1>2, <1>3, <1>4, <1>5, <1>6, SMTT(30) DEF v
+<1>7. Enc(d) = NEnc(v) BY <1>1, <1>2, <1>3, <1>4, <1>5, <1>6, SMTT(30)
+<1> QED BY <1>L, <1>7, SMTT(30) DEF v
 
 (* ------------------------------------------------------------------------------------------------ *)
 (* digit-form decoder, by length and marker (same shape lemmas as for NDec) *)
@@ -854,14 +861,19 @@ LEMMA DDec9 == \A b \in Seq(Byte) : (Len(b) >= 1 /\ b[1] = 255) =>
 LEMMA DDecM == \A b \in Seq(Byte) : (Len(b) >= 1 /\ b[1] >= 252 /\ b[1] <= 254) => Dec(b) = ErrMarker(b[1])
   BY SMTT(60) DEF Dec, Byte
 
+LEMMA Step16 == \A x \in Nat : x = ((x \div 65536) * 65536) + (x % 65536) /\ (x % 65536) \in 0..65535 /\ (x \div 65536) \in Nat
+  BY SMTT(30)
+
 LEMMA FromLowOK == \A x \in Nat : x <= 4294967295 => FromLow(x) \in U64 /\ Val(FromLow(x)) = x
 <1> TAKE x \in Nat
 <1> HAVE x <= 4294967295
 <1> DEFINE q == x \div 65536
 <1> DEFINE r == x % 65536
-<1>1. q \in 0..65535 /\ r \in 0..65535 /\ x = (q * 65536) + r BY SMTT(30)
+<1>1a. q \in Nat /\ r \in 0..65535 /\ x = (q * 65536) + r BY Step16, SMTT(30)
 <1>2. FromLow(x) = <<0, 0, q, r>> BY SMTT(30) DEF FromLow
 <1> HIDE DEF q, r
+<1>1b. q <= 65535 BY <1>1a, SMTT(30)
+<1>1. q \in 0..65535 /\ r \in 0..65535 /\ x = (q * 65536) + r BY <1>1a, <1>1b, SMTT(30)
 <1>3. <<0, 0, q, r>> \in U64 BY <1>1, SMTT(30) DEF U64, D16
 <1>4. Val(<<0, 0, q, r>>) = (q * 65536) + r BY <1>1, SMTT(30) DEF Val
 <1> QED BY <1>1, <1>2, <1>3, <1>4, SMTT(30)
